@@ -505,3 +505,10 @@ def d7(cx: Cx, ob: Ob) -> None:
         ob.site(f"{where(g, ev.line)} {g.qualname}", show(ev.b)[:60])
         if not (op(ev.b) == "call" and ev.b[1] == ("func", f"{A}._prepare_predicates") and ev.b[2] == (("param", "predicates"),)):
             ob.violate(g.qualname, where(g, ev.line), f"query_predicates is `{show(ev.b)[:50]}`, not _prepare_predicates(predicates)", detail="store-value")
+
+
+@obligation("C18-D8", "MappingServiceGraph keeps no memo or other mutable state beyond what __init__ sets (per instance or at class level): answers depend only on the converter and the query", floor=1)
+def d8(cx: Cx, ob: Ob) -> None:
+    from ..rules import class_state_closure
+
+    class_state_closure(cx, ob, f"{A}.MappingServiceGraph")
